@@ -96,7 +96,12 @@ func genEvSession(ref core.CaseRef, r *rand.Rand) *evCase {
 				d := c.SizeMs + 1 + int64(r.Intn(int(c.SizeMs)-1))
 				if t-d > 0 && d <= c.MooMs {
 					k := c.Rows[i].K
-					rows = append(rows, evRow{TS: t - d, K: k, V: r.Intn(100)}, evRow{TS: t - d/2, K: k, V: r.Intn(100)})
+					rows = append(rows, evRow{TS: t - d, K: k, V: r.Intn(100)})
+					if r.Intn(2) == 0 {
+						rows = append(rows, evRow{TS: t - d/2, K: k, V: r.Intn(100)})
+					}
+					// without the third event the earlier session stays separate and is the first to expire,
+					// although it is listed after the later one
 				}
 			}
 		}
